@@ -157,7 +157,7 @@ pub fn run(ctx: &Ctx) -> i32 {
             repls: vec![false, true],
             cap_patterns: &|s| dech::sample_query_caps(s),
             core_max_len: ctx.tier.pick(6, 8),
-            triples: ctx.tier == fw::Tier::Thorough,
+            triples: true,
             bom_prefixes: true,
             random_per_enc: ctx.n(4_000, 120_000),
             profile: Profile { max_tokens: ctx.tier.pick(10, 40), small_caps_weight: 200, queries: true, exact_queries: true, modes: &hist::ALL_MODES, sinks: &hist::ALL_SINKS, bom_prefix_weight: 64 },
